@@ -330,7 +330,12 @@ let check_mux id (bops : bop list) (script : sink_ev list) (ops : string list li
         ("C06", check_C06 b ops cls lens stats (script = []));
         ("C09", check_C09 b ops cls sink);
         ("C15", check_C15 b ops cls sink);
-      ]
+        ("C07", check_C07 b ops cls sink);
+        ("C18", check_C18 b ops cls sink);
+      ];
+      let pr_fail name l = if l <> [] then Printf.printf "fail %s %s %s\n" id name (String.concat "," (List.map hex_of_n l)) in
+      pr_fail "C19" (failed_C19_mux b ops cls sink);
+      pr_fail "C16" (failed_C16_mux b ops cls sink)
   | _ -> pr_checks id []
 
 let check_frag id (ops : string list list) (blk : string list) =
@@ -364,7 +369,23 @@ let check_fn id name args (blk : string list) =
       pr_checks id [("C14", r <> "panic" && check_reframe (bytes_of_hex (List.nth args 0)) (bytes_of_hex r))]
   | _ -> pr_checks id []
 
+let pairs_mode () =
+  (try while true do
+    let line = input_line stdin in
+    match words line with
+    | ["c08"; id; has; h1; h2] ->
+        Printf.printf "chk %s C08=%s\n" id (s01 (check_C08 (b01 has) (bytes_of_hex h1) (bytes_of_hex h2)))
+    | ["same"; id; ign; h1; h2] ->
+        Printf.printf "chk %s SAME=%s\n" id (s01 (same_media (b01 ign) (bytes_of_hex h1) (bytes_of_hex h2)))
+    | ["c19init"; id; w; h; ts; hx] ->
+        let l = failed_C19_init (n_of_hex w) (n_of_hex h) (n_of_hex ts) (bytes_of_hex hx) in
+        Printf.printf "fail %s C19 %s\n" id (String.concat "," (List.map hex_of_n l))
+    | ["iso8601"; id; t] -> Printf.printf "r %s %s\n" id (hex_of_bytes (iso8601 (n_of_hex t)))
+    | _ -> ()
+  done with End_of_file -> ())
+
 let () =
+  if Array.length Sys.argv > 1 && Sys.argv.(1) = "pairs" then (pairs_mode (); exit 0);
   let check = Array.length Sys.argv > 2 && Sys.argv.(1) = "check" in
   let impl = if check then impl_blocks Sys.argv.(2) else Hashtbl.create 1 in
   let blk id = try Hashtbl.find impl id with Not_found -> [] in
